@@ -59,15 +59,17 @@ def discharge(obs, axioms, timeout_ms=10000, shard=None, use_cvc5=True, cover=Fa
             else:
                 a['proved'] += 1; a['backends']['z3api-cover'] = a['backends'].get('z3api-cover', 0) + 1
             continue
-        # `unknown` is usually a heuristic miss, not a property of the formula (the same query is often decided in milliseconds under another
-        # seed): a short first attempt, then the full budget under a second seed, then larger budgets
-        r, be, dt, info, solver = check_one(hyps, goal, axioms, max(2000, timeout_ms // 5), want_model=True)
-        a['secs'] += dt
-        for attempt in range(1, retries + 2):
-            if r != 'unknown' or lost_s > 12 * timeout_ms / 1000: break
-            r, be, dt, info, solver = check_one(hyps, goal, axioms, timeout_ms * (1 if attempt == 1 else 2 if attempt == 2 else 4), want_model=True, seed=attempt * 7919)
+        # `unknown` is usually a heuristic miss, not a property of the formula: the same query is often decided in milliseconds under another seed
+        # (instantiation order).  So: several SHORT attempts under different seeds first, then the full budget, then larger ones.
+        short = max(2000, timeout_ms // 5)
+        plan = [(short, 0), (short, 7919), (short, 104729), (timeout_ms, 1299709)] + [(timeout_ms * (2 if k == 0 else 4), 15485863 + k) for k in range(retries)]
+        r = 'unknown'
+        for n_att, (budget, sd) in enumerate(plan):
+            if n_att > 0 and lost_s > 12 * timeout_ms / 1000: break
+            r, be, dt, info, solver = check_one(hyps, goal, axioms, budget, want_model=True, seed=sd)
             a['secs'] += dt
-            a['retries'] = a.get('retries', 0) + 1
+            if n_att > 0: a['retries'] = a.get('retries', 0) + 1
+            if r != 'unknown': break
         if r == 'unknown' and use_cvc5 and lost_s <= 12 * timeout_ms / 1000:
             r2 = cvc5_check(solver, timeout_s=max(5, timeout_ms // 2000))
             if r2 == 'unsat': r, be = 'unsat', 'cvc5'
